@@ -11,6 +11,12 @@ open GunYu
 theorem u8_toNat (n : Nat) (h : n < 256) : (UInt8.ofNat n).toNat = n := by
   rw [UInt8.toNat_ofNat']; omega
 
+theorem u8_ne (n : Nat) (c : UInt8) (h : n < 256) (hne : n ≠ c.toNat) : UInt8.ofNat n ≠ c := by
+  intro e
+  have := congrArg UInt8.toNat e
+  rw [u8_toNat n h] at this
+  exact hne this
+
 theorem readN_append (a r : Bytes) : readN a.length (a ++ r) = some (a, r) := by
   simp [readN]
 
